@@ -56,7 +56,7 @@ func workerC15(r *vk.Run, w, n int, args []string) {
 }
 
 func sessionC15(r *vk.Run, rng *rand.Rand, idx int) {
-	g := geom{layout: []string{"default", "reverse", "reverse-list"}[rng.Intn(3)], info: []string{"default", "inline", "hidden", "inline-right"}[rng.Intn(4)]}
+	g := geom{layout: []string{"default", "reverse", "reverse-list"}[rng.Intn(3)], info: []string{"default", "inline", "hidden", "inline-right", "right"}[rng.Intn(5)]}
 	g.border = rng.Intn(3) == 0
 	g.multi = rng.Intn(2) == 0
 	if rng.Intn(3) == 0 {
@@ -80,6 +80,8 @@ func sessionC15(r *vk.Run, rng *rand.Rand, idx int) {
 		fzfArgs = append(fzfArgs, "--info=inline")
 	case "hidden":
 		fzfArgs = append(fzfArgs, "--info=hidden")
+	case "right":
+		fzfArgs = append(fzfArgs, "--info=right")
 	case "inline-right":
 		fzfArgs = append(fzfArgs, "--info=inline-right")
 	}
@@ -352,7 +354,7 @@ func compareScreen(scr []string, st *tty.Status, g geom, nonce string, headerLin
 	}
 	used := map[int]bool{prow: true}
 	// info
-	if g.info == "default" {
+	if g.info == "default" || g.info == "right" {
 		irow := -1
 		for _, cand := range []int{prow - 1, prow + 1} {
 			if cand >= 0 && cand < len(rows) && infoRe.MatchString(rows[cand]) && strings.HasPrefix(strings.TrimLeft(rows[cand], " "), fmt.Sprint(st.MatchCount)+"/") {
@@ -423,6 +425,7 @@ func compareScreen(scr []string, st *tty.Status, g geom, nonce string, headerLin
 		text      string
 	}
 	var list []lrow
+	var listIdx []int
 	for i, l := range rows {
 		if used[i] || strings.TrimSpace(l) == "" {
 			continue
@@ -435,6 +438,32 @@ func compareScreen(scr []string, st *tty.Status, g geom, nonce string, headerLin
 			return fmt.Sprintf("a list row does not start with the pointer/marker gutter: %q", l), false, 0
 		}
 		list = append(list, lrow{p == '>', m == '*', l[2:]})
+		listIdx = append(listIdx, i)
+	}
+	// placement of the --header rows: between the list and the prompt, or - with --header-first - on the
+	// far side of the prompt ("print header before the prompt line")
+	if len(g.header) > 0 && len(listIdx) > 0 {
+		lo, hi, h := listIdx[0], listIdx[len(listIdx)-1], hrow[0]
+		ok := false
+		switch {
+		case g.layout == "reverse" && !g.headerFst:
+			ok = prow < h && h < lo
+		case g.layout == "reverse" && g.headerFst:
+			ok = h < prow && prow < lo
+		case !g.headerFst:
+			ok = hi < h && h < prow
+		default:
+			ok = hi < prow && prow < h
+		}
+		if !ok {
+			return fmt.Sprintf("the --header rows are misplaced for layout %s, header-first=%v: header at screen row %d, prompt at %d, list rows %d..%d", g.layout, g.headerFst, h, prow, lo, hi), false, len(list)
+		}
+	}
+	// the list is one block of rows: no header, prompt, info or blank row lies between two list rows
+	for k := 1; k < len(listIdx); k++ {
+		if listIdx[k] != listIdx[k-1]+1 {
+			return fmt.Sprintf("the list rows are not contiguous: screen rows %d and %d are list rows, row %d (%q) between them is not", listIdx[k-1], listIdx[k], listIdx[k-1]+1, rows[listIdx[k-1]+1]), false, len(list)
+		}
 	}
 	avail := len(rows) - len(used)
 	for i := range rows {
